@@ -31,6 +31,7 @@ if [ $ok = 0 ]; then echo "$sid: NOT A VALID SEED (kept nothing)"; exit 5; fi
 git -C /repo apply "$src/patch.diff" || { echo "apply to /repo failed"; exit 4; }
 results="[]"
 cd /verif
+export VERIF_EVIDENCE_DIR=/dev/shm/verif-mutant-evidence VERIF_REPLAY_DIR=/dev/shm/verif-mutant-replays
 for p in "${props[@]}"; do
   o=$(VERIF_MAX_SIGS=${VERIF_MAX_SIGS:-3} VERIF_SHRINK_BUDGET=${VERIF_SHRINK_BUDGET:-80} ./check "$p" --tier ${TIER:-quick} 2>&1); rc=$?
   nv=$(echo "$o" | grep -c '^VIOLATION')
